@@ -252,6 +252,12 @@ func c05Schedules(w *Worker, inputs []c05Input) {
 			finished = true
 		})
 		s.Run()
+		if s.Stalled {
+			// a goroutine of the command blocks on something the scheduler does not intercept: no verdict for this case
+			x.Case("skip: not schedulable "+key, false)
+			x.Note("schedule_exploration_abandoned", 1)
+			return
+		}
 		x.Obs(r.Key(), fmt.Sprint(finished, s.Deadlock))
 		x.Case(fmt.Sprint(key, s.Trace), len(s.Trace) > 0)
 		x.Note("scheduler_transitions", int64(len(s.Trace)))
